@@ -209,7 +209,12 @@ def close_sockets(listeners, unlink=True):
         sock_name = sock.getsockname()
         sock.close()
         if unlink and _sock_type(sock_name) is UnixSocket:
-            os.unlink(sock_name)
+            try:
+                os.unlink(sock_name)
+            except FileNotFoundError:
+                # somebody else removed the file: nothing left to do, and
+                # certainly no reason to abort the shutdown
+                pass
 
 
 def ssl_context(conf):
